@@ -23,6 +23,8 @@ package main
 //                the model; Spec evaluated on the Go results (arguments are the spawn-site
 //                values, nested calls ran at the spawn site exactly once, wait returns the
 //                call's outcome — observed at the Go level (Thread.Wait) and by the script).
+//   D. nested    thread trees of depth 2–3 (c10nest.go): spawned functions that spawn and return.
+//   E. tree      schedules of the model's thread tree step by step on real script threads (c10tree.go).
 
 import (
 	"context"
@@ -52,11 +54,20 @@ func c10_runC10(e *Env) {
 		"C: spawn scenarios (op list over spawn forms go f()/go o.m()/go callee()()/spawn()/fn.spawn()/host Spawn, argument expressions = variable | literal | " +
 		"nested call with side effect tick_i() | nested pure call dbl(A) to depth 3, call bodies = return | raise | Go panic in a builtin | Go panic by frame overflow, " +
 		"reassignments, runs, waits), non-trivial when a variable passed as argument is reassigned (or its slice overwritten) between spawn and run, " +
-		"or an argument is a nested call, or the call panics; distinct by (layout, op list)"
+		"or an argument is a nested call, or the call panics; distinct by (layout, op list). " +
+		"D: nested spawn topologies = thread trees of depth 2..3 (1..4 coordinators that start producers / pipeline stages / consumers / further coordinators with spawn() | fn.spawn() | go, " +
+		"return at once or wait for some of the coordinators they started; buffers 0..8 per pipeline channel; explicit/method/range/for-in receives; producers gated until every coordinator has returned, or free; " +
+		"the main program collects or consumes), each run for real, sequentialised into one schedule of the model's thread tree (C10 net) and judged by validHistory; " +
+		"non-trivial when some thread is at depth >= 2 and >= 50 values pass; distinct by (tree, forms, buffers, counts, styles, GOMAXPROCS, yields). " +
+		"E: random schedules (8..40 steps, up to 9 threads, 1..2 channels cap 0..3) of the model's thread tree — spawn by any live thread (spawn()/fn.spawn()/go), return, wait, send/receive/close/handoff — " +
+		"executed step by step on real script threads (every thread runs a command loop), each thread's context read by the host after every step; " +
+		"non-trivial when >= 2 channel operations are by threads one of whose ancestors has returned; distinct by (caps, forms, op list)"
 	prev := runtime.GOMAXPROCS(0)
 	defer runtime.GOMAXPROCS(prev)
 	c10ChanOps(e)
 	c10Spawn(e)
+	c10Tree(e)
+	c10Nested(e)
 	c10Topologies(e)
 }
 
